@@ -5,11 +5,11 @@ THEOREMS = ["Dispenso.PoolAlloc." + t for t in ['C42_inv', 'C42_chunks_valid', '
 
 
 def run(ctx, replay):
-    ctx.cov["rule"] = ("sequential layer: random alloc / dealloc / clear histories on NoLockPoolAllocator (chunk sizes 8..64, "
+    ctx.cov["rule"] = ("sequential layer: random alloc / dealloc / clear histories on NoLockPoolAllocator (chunk sizes 8..64 and arbitrary 1..70, "
                        "1..5 chunks per slab, slack bytes at the slab end) with logging allocFunc / deallocFunc, compared "
                        "with the Lean value model (slab, chunk index, allocFunc/deallocFunc call counts, capacity); after "
                        "each clear() the cleared slabs are drained to check reuse; concurrent layer: PoolAllocator from "
-                       "2..4 threads under the deterministic scheduler, lock-word trace replayed through the Lean model, "
+                       "2..4 threads under the deterministic scheduler (chunk 13..65536 bytes, slabs up to 128 KiB), lock-word trace replayed through the Lean model, "
                        "oracle: no chunk handed out twice, chunks inside slabs; distinct = distinct request lines / shapes")
     ctx.assumptions += ["allocSize >= chunkSize (class precondition); clear() is called with no chunk in use"]
     if THEOREMS:
